@@ -31,3 +31,6 @@ LP/Driver.vos LP/Driver.vok LP/Driver.required_vos: LP/Driver.v LP/OptTest.vos
 LP/DriverSound.vo LP/DriverSound.glob LP/DriverSound.v.beautified LP/DriverSound.required_vo: LP/DriverSound.v LP/Driver.vo LP/OptTestSound.vo
 LP/DriverSound.vio: LP/DriverSound.v LP/Driver.vio LP/OptTestSound.vio
 LP/DriverSound.vos LP/DriverSound.vok LP/DriverSound.required_vos: LP/DriverSound.v LP/Driver.vos LP/OptTestSound.vos
+LP/Agree.vo LP/Agree.glob LP/Agree.v.beautified LP/Agree.required_vo: LP/Agree.v LP/DriverSound.vo LP/Unique.vo
+LP/Agree.vio: LP/Agree.v LP/DriverSound.vio LP/Unique.vio
+LP/Agree.vos LP/Agree.vok LP/Agree.required_vos: LP/Agree.v LP/DriverSound.vos LP/Unique.vos
